@@ -100,13 +100,21 @@ var c06Laws = []c06law{
 	  local co = coroutine.wrap(function(a) total = total + a; local mine = 1; setmine = function(v) mine = v end; coroutine.yield(); total = total + a; return mine end)
 	  co(y); emit(total); setmine(7); emit(co(), total)`,
 		func(x, y float64) []LValue { return []LValue{sep, n_(x + y), sep, n_(7), n_(x + y + y)} }},
+	// a vararg body with named parameters started with fewer / exactly / more values than parameters
+	{`local function body(a, b, c, ...) emit(a, b, c, select('#', ...), ...); local d, e = coroutine.yield(); emit(d, e) end
+	  local c1 = coroutine.create(body); coroutine.resume(c1, x); coroutine.resume(c1, y)
+	  local c2 = coroutine.wrap(body); c2(x, y); c2(1, 2, 3)
+	  local c3 = coroutine.wrap(body); c3(x, y, 3, 4, 5)`,
+		func(x, y float64) []LValue {
+			return []LValue{sep, n_(x), LNil, LNil, n_(0), sep, n_(y), LNil, sep, n_(x), n_(y), LNil, n_(0), sep, n_(1), n_(2), sep, n_(x), n_(y), n_(3), n_(2), n_(4), n_(5)}
+		}},
 }
 
 var sep LValue = LString("\x00sep")
 
 // C06.laws — coroutine value transfer, status and error laws with symbolic payloads.
 //
-//verif:harness prop=C06 tier=quick bounds="14 law templates (<= 3 coroutines, <= 6 resumes each): transfer in both directions with 0..3 values, status incl. normal/running, errors and faults inside coroutines, wrap, generators, nested resumes, dead/running resume, tail-called yield; payloads 2 symbolic float64"
+//verif:harness prop=C06 tier=quick bounds="15 law templates (<= 3 coroutines, <= 6 resumes each): transfer in both directions with 0..3 values, status incl. normal/running, errors and faults inside coroutines, wrap, generators, nested resumes, dead/running resume, tail-called yield; payloads 2 symbolic float64"
 func H_C06_laws() {
 	k := VChoice(len(c06Laws))
 	law := c06Laws[k]
